@@ -66,7 +66,7 @@ P = {
    text="Expression trees to depth 3 over Str, Subsequence, AlwaysMatch and every small component DFA with every sound hint assignment are built with the crate's combinators and compared state-by-state with a reference DFA: acceptance of every string up to |Q|+1 over class representatives, can_match=false only if no accepting continuation, will_always_match=true only if all continuations accept; random trees to depth 4, patterns of 256..300 bytes, and the bytes 0x00/0x7f/0x80/0xff always part of the alphabet.",
    note="Trusted: the reference compiler in the harness.", ref="5/C18"),
  "C19": dict(level="exploration", tech="differential CLI runs over batch/fd-limit/thread/schedule-seed configurations against a model fold; byte-equality across configurations",
-   text="The fst binary (hooks on: seeded delays at channel points, batch trace) is run on generated line/CSV multisets over batch sizes, fd limits, thread counts, merge modes and schedule seeds; output must exist, verify, equal the model fold and be byte-identical across configurations, and equal a sorted build when keys are unique; inputs include CRLF files, files without final newline, values beyond 2^32 and up to ~180 rows (hundreds of batches, several generations); a run that does not finish within two minutes is reported as a hang.",
+   text="The fst binary (hooks on: seeded delays at channel points, batch trace) is run on generated line/CSV multisets over batch sizes, fd limits, thread counts, merge modes and schedule seeds; output must exist, verify, equal the model fold and be byte-identical across configurations, and equal a sorted build when keys are unique; inputs include CRLF files, files without final newline, values beyond 2^32 and up to ~180 rows (hundreds of batches, several generations); a run that does not finish within 45 seconds is reported as a hang.",
    note="Interleavings are perturbed, not enumerated; a bug needing one specific interleaving may be missed.", ref="5/C19"),
  "C20": dict(level="exploration", tech="exhaustive header/footer grid + proptest random/truncated/mutated inputs under catch_unwind + libFuzzer/ASan (thorough); auxiliary -F unsafe_code lint",
    text="Every length 0..64 x boundary version/root/len values x filler, random byte strings, every truncation and single-byte mutation of valid FSTs are opened through Fst/Map/Set::new and, when they open, the metadata accessors and verify() are called, all under catch_unwind; inputs of 64 KiB..16 MiB with plausible headers/footers included; the library is additionally compiled with -F unsafe_code as the property prescribes.",
